@@ -133,15 +133,15 @@ Definition wrap (b : bool) (k : list item) : list item :=
 
 Lemma pp_bin name v i a ln l r :
   pp (Node name v i a ln [l; r]) =
-  assemble str_allow (classify_nc name 2) name v a [l; r]
+  assemble str_allow true (classify_nc name 2) name v a [l; r]
            [wrap (needs (classify_nc name 2) 0 l) (pp l); wrap (needs (classify_nc name 2) 1 r) (pp r)].
 Proof. reflexivity. Qed.
 Lemma pp_pre name v i a ln x :
   pp (Node name v i a ln [x]) =
-  assemble str_allow (classify_nc name 1) name v a [x] [wrap (needs (classify_nc name 1) 0 x) (pp x)].
+  assemble str_allow true (classify_nc name 1) name v a [x] [wrap (needs (classify_nc name 1) 0 x) (pp x)].
 Proof. reflexivity. Qed.
 Lemma pp_leaf name v i a ln :
-  pp (Node name v i a ln []) = assemble str_allow (classify_nc name 0) name v a [] [].
+  pp (Node name v i a ln []) = assemble str_allow true (classify_nc name 0) name v a [] [].
 Proof. reflexivity. Qed.
 
 (* the binding below which the expression is read completely, and the binding above which
